@@ -43,10 +43,21 @@ impl<T> Iterator for Src<'_, T> {
         }
         x
     }
-    /// what the source reports as size_hint; every variant is truthful (a lower bound that is
-    /// not above, an upper bound that is not below the number of items still to come)
+    /// what the source reports as size_hint: four truthful shapes (a lower bound that is not above,
+    /// an upper bound that is not below the number of items still to come) and, when bits 3 and 4
+    /// of `hint` are both set, four untruthful ones
     fn size_hint(&self) -> (usize, Option<usize>) {
         let n = self.it.len();
+        if self.hint & 0x18 == 0x18 {
+            // a source whose size_hint is wrong (safe code may get it wrong; the container must
+            // not rely on it for memory safety or for its capacity check)
+            return match self.hint & 3 {
+                0 => (0, Some(0)),
+                1 => (n / 2, Some(n / 2)),
+                2 => (n + 2, Some(n + 2)),
+                _ => (0, Some(n.saturating_sub(1))),
+            };
+        }
         match self.hint & 3 {
             0 => (n, Some(n)),
             1 => (0, None),
@@ -728,6 +739,10 @@ impl<'c, KD: Kind, const N: usize> MapEng<'c, KD, N> {
         // c is a 7-bit argument (the top bit of the byte selects the container)
         let sub = (c as usize * 3) >> 7;
         let hint = c;
+        // a source with an untruthful size_hint: C16 (which is about well-behaved sources) stands
+        // back, the capacity check (C03) and the standing memory-safety invariants stay armed
+        let lying = hint & 0x18 == 0x18 && sub != 2;
+        let p16 = if lying { PS::NONE } else { P16 };
         let len = if sub == 2 { N } else { scale(a, 3 * N + 3) };
         let u = self.univ as u32;
         let base = self.newval(0);
@@ -753,6 +768,9 @@ impl<'c, KD: Kind, const N: usize> MapEng<'c, KD, N> {
         }
         let cx = &mut *self.cx;
         cx.bump(S::bulk_calls);
+        if lying {
+            cx.bump(S::bulk_lying_hints);
+        }
         if len > N && overflow_at.is_none() {
             cx.bump(S::bulk_longer_than_n);
         }
@@ -805,10 +823,10 @@ impl<'c, KD: Kind, const N: usize> MapEng<'c, KD, N> {
                 let mut ns: Slot<KD, N> = Slot::new();
                 *ns.c = Caged::new(newmap);
                 if !liar {
-                    cx.chk(P16.and(Prop::C03), overflow_at.is_none(), "overflow-not-rejected", || format!("{} distinct keys were accepted by a container of {N}", want.len() + 1));
+                    cx.chk(p16.and(Prop::C03), overflow_at.is_none(), "overflow-not-rejected", || format!("{} distinct keys were accepted by a container of {N}", want.len() + 1));
                     if sub != 2 {
                         let p = pulled.get();
-                        cx.chk(P16, p == len, "source-consumption", || format!("the source yielded {len} items but {p} were pulled"));
+                        cx.chk(p16, p == len, "source-consumption", || format!("the source yielded {len} items but {p} were pulled"));
                     }
                     for e in &want {
                         ns.model.insert(e.0, Ent { kid: ids[e.1].0, vid: ids[e.2].1, val: KD::vnorm(base + e.2 as u32) });
@@ -846,7 +864,7 @@ impl<'c, KD: Kind, const N: usize> MapEng<'c, KD, N> {
                                     _ => same = false,
                                 }
                             }
-                            cx.chk(P16, same, "bulk-vs-inserts", || format!("{} of {keys:?} differs from inserting the items one by one", names[sub]));
+                            cx.chk(p16, same, "bulk-vs-inserts", || format!("{} of {keys:?} differs from inserting the items one by one", names[sub]));
                         }
                         let _ = tl::quiet(move || drop(refm));
                     }
@@ -858,15 +876,15 @@ impl<'c, KD: Kind, const N: usize> MapEng<'c, KD, N> {
                 // distinct key fits (C16, and C03 when a present key arrived again on the full map)
                 cx.bump(S::lib_panics);
                 if !liar {
-                    let owner = if repeat_after_full { P16.and(Prop::C03) } else if overflow_at.is_some() { P16.and(Prop::C03) } else { P16 };
+                    let owner = if lying { PS::NONE } else if repeat_after_full || overflow_at.is_some() { p16.and(Prop::C03) } else { p16 };
                     let pn = p.name();
                     cx.chk(owner, overflow_at.is_some(), "spurious-overflow", || format!("{} panicked ({pn}) although only {} distinct keys were supplied to a container of {N}", names[sub], want.len()));
                 }
             }
-            Err(p) => fault |= unexpected(cx, liar, P16, &p),
+            Err(p) => fault |= unexpected(cx, liar, p16, &p),
         }
         self.note_fault(fault, true);
         self.cur_target = 1;
-        self.after(P16, P16.and(Prop::C12));
+        self.after(p16, p16.and(Prop::C12));
     }
 }
